@@ -32,7 +32,7 @@ EXHAUSTIVE_SUBSPACES = ["every entry of every symbolic tensor parameter of every
 ASSUMPTIONS = ["reference interpreter vf/ref.py is differentiated numerically (central differences + one Richardson step, tolerance 2e-5 of the abs-scale)"]
 FLOOR = {"ccp:pointer-fold-idx": 1, "cc:TorchTensorDotLayer": 1, "cc:TorchTuckerLayer": 1, "cc:TorchCPTLayer": 1, "sr:complex-lse-sum": 1, "sr:lse-sum": 1,
          "ccp:TorchLogSoftmaxParameter": 1, "p:IndexParameter": 1, "grad_entries_compared": 500, "flag_pairs_compared": 20, "input-gradient": 1,
-         "gradcheck": 1, "zero-boundary": 1, "tiny-values": 1}
+         "gradcheck": 1, "zero-boundary": 1, "tiny-values": 1, "backward-in-eval-mode": 1}
 
 
 def plan(tier, seed):
@@ -314,6 +314,33 @@ def run_case(case) -> Result:
                                 res.count("grad_entries_compared")
                                 if abs(gx[b, ci_] - np.real(fd)) > gsc + TOL["grad"]["rel"] * abs(fd):
                                     res.violate("input-gradient-vs-finite-difference", f"[{tag} {part}] d loss / d x[{b},{v}]: autograd {gx[b, ci_]!r} finite-difference {fd!r}")
+        # the same backward pass in inference mode (eval()): autograd is still on, so the gradients
+        # must be the ones just computed in training mode
+        part = parts[0]
+        cc_.eval()
+        try:
+            for m in cc_.parameters():
+                m.grad = None
+            xt = C.to_tensor(X)
+            y = cc_(xt) if xt is not None else cc_()
+            semiring_loss_torch(y, wts, sr, part).backward()
+            res.features.add("backward-in-eval-mode")
+            for n in leaves:
+                want = grads.get((fold, opt, part, id(n)))
+                if want is None or not comp.state.has_compiled_parameter(n):
+                    continue
+                t, i = comp.state.retrieve_compiled_parameter(n)
+                g = t._ptensor.grad
+                gnp = np.zeros_like(want) if g is None else g[i].detach().numpy()
+                res.count("eval_mode_grads_compared")
+                if not np.allclose(gnp, want, rtol=1e-9, atol=1e-12 * (np.abs(want).max() + 1.0), equal_nan=True):
+                    res.violate("gradient-differs-in-eval-mode", f"[{tag} {part}] parameter {n.shape}: gradient after circuit.eval() differs from the training-mode gradient (max |diff| {np.abs(gnp - want).max():.3g}{', no gradient at all' if g is None else ''})")
+        except Exception as e:  # pylint: disable=broad-except
+            from vf.common import Outcome
+
+            exc_violation(res, Outcome(exc=e), f"backward in eval mode [{tag} {part}]", "exception-backward")
+        finally:
+            cc_.train()
     # flag independence
     for part in parts:
         for n in leaves:
